@@ -167,6 +167,14 @@ func rewriteFile(path, rel string) ([]byte, bool, error) {
 			rep.Rewrites["import sync/atomic"]++
 		}
 	}
+	// packages imported under their own name (for context.* / time.* call rewriting)
+	pkgImported := map[string]bool{}
+	for _, im := range f.Imports {
+		p, _ := strconv.Unquote(im.Path.Value)
+		if (p == "context" || p == "time") && im.Name == nil {
+			pkgImported[p] = true
+		}
+	}
 	// statements
 	ast.Inspect(f, func(n ast.Node) bool {
 		switch b := n.(type) {
@@ -177,7 +185,11 @@ func rewriteFile(path, rel string) ([]byte, bool, error) {
 		case *ast.CommClause:
 			rw.list(b.Body)
 		case *ast.LabeledStmt:
-			if s := rw.stmt(b.Stmt); s != nil {
+			if sst, ok := b.Stmt.(*ast.SelectStmt); ok {
+				if s := rw.selectStmt(sst); s != nil {
+					b.Stmt = s
+				}
+			} else if s := rw.stmt(b.Stmt); s != nil {
 				b.Stmt = s
 			}
 		case *ast.CallExpr:
@@ -186,18 +198,61 @@ func rewriteFile(path, rel string) ([]byte, bool, error) {
 				rw.needVrt, rw.changed = true, true
 				rep.Rewrites["close"]++
 			}
-		case *ast.SendStmt:
-			rw.unmodelled(b.Pos(), "channel send")
-		case *ast.RangeStmt:
-			// range over channel cannot be recognised syntactically; noted only if it looks like one
+			// timers live in virtual time (vrt/time.go)
+			if se, ok := b.Fun.(*ast.SelectorExpr); ok {
+				if id, ok := se.X.(*ast.Ident); ok && id.Obj == nil {
+					key := id.Name + "." + se.Sel.Name
+					if pkgImported[id.Name] {
+						switch key {
+						case "context.WithTimeout", "context.WithDeadline", "time.Sleep", "time.After":
+							b.Fun = sel("vrt", se.Sel.Name)
+							rw.needVrt, rw.changed = true, true
+							rep.Rewrites[key]++
+						case "time.NewTimer", "time.AfterFunc", "time.NewTicker", "time.Tick", "context.AfterFunc":
+							rw.unmodelled(b.Pos(), key+" (real-time timer, not under the scheduler)")
+						}
+					}
+				}
+			}
+		}
+		return true
+	})
+	// receives in expression position: `<-c` becomes `<-vrt.RecvChan(c)` (the controlled
+	// receive happens inside RecvChan; the operator then reads the same value, ok from a
+	// ready one-element channel). Receives inside selects that were left alone are skipped.
+	skip := map[*ast.UnaryExpr]bool{}
+	ast.Inspect(f, func(n ast.Node) bool {
+		if sst, ok := n.(*ast.SelectStmt); ok {
+			for _, c := range sst.Body.List {
+				if cc := c.(*ast.CommClause); cc.Comm != nil {
+					ast.Inspect(cc.Comm, func(m ast.Node) bool {
+						if u, ok := m.(*ast.UnaryExpr); ok && u.Op == token.ARROW {
+							skip[u] = true
+						}
+						return true
+					})
+				}
+			}
+		}
+		return true
+	})
+	ast.Inspect(f, func(n ast.Node) bool {
+		if u, ok := n.(*ast.UnaryExpr); ok && u.Op == token.ARROW && !skip[u] {
+			if call, ok := u.X.(*ast.CallExpr); ok {
+				if se, ok := call.Fun.(*ast.SelectorExpr); ok {
+					if id, ok := se.X.(*ast.Ident); ok && id.Name == "vrt" && se.Sel.Name == "RecvChan" {
+						return true
+					}
+				}
+			}
+			u.X = &ast.CallExpr{Fun: sel("vrt", "RecvChan"), Args: []ast.Expr{u.X}}
+			rw.needVrt, rw.changed = true, true
+			rep.Rewrites["recv expr"]++
 		}
 		return true
 	})
 	// leftover receives in expression position
 	ast.Inspect(f, func(n ast.Node) bool {
-		if u, ok := n.(*ast.UnaryExpr); ok && u.Op == token.ARROW {
-			rw.unmodelled(u.Pos(), "receive expression")
-		}
 		if s, ok := n.(*ast.SelectStmt); ok {
 			rw.unmodelled(s.Pos(), "select statement not of the receive-only/discard shape")
 		}
@@ -261,7 +316,14 @@ func (rw *rewriter) stmt(s ast.Stmt) ast.Stmt {
 	case *ast.GoStmt:
 		return rw.goStmt(st)
 	case *ast.SelectStmt:
-		return rw.selectStmt(st)
+		if r := rw.selectStmt(st); r != nil {
+			return r
+		}
+		return rw.selectGeneral(st)
+	case *ast.SendStmt:
+		rw.needVrt, rw.changed = true, true
+		rep.Rewrites["send"]++
+		return &ast.ExprStmt{X: &ast.CallExpr{Fun: sel("vrt", "Send"), Args: []ast.Expr{st.Chan, st.Value}}}
 	case *ast.ExprStmt:
 		if u, ok := st.X.(*ast.UnaryExpr); ok && u.Op == token.ARROW {
 			rw.needVrt, rw.changed = true, true
@@ -328,6 +390,97 @@ func (rw *rewriter) goStmt(g *ast.GoStmt) ast.Stmt {
 func (rw *rewriter) newTmp() string {
 	rw.tmp++
 	return fmt.Sprintf("vrtTmp%d", rw.tmp)
+}
+
+// selectGeneral rewrites a select with send cases and/or receives whose value is used.
+func (rw *rewriter) selectGeneral(s *ast.SelectStmt) ast.Stmt {
+	if len(s.Body.List) == 0 {
+		return nil
+	}
+	var pre []ast.Stmt
+	var caseArgs []ast.Expr
+	hasDefault := false
+	type info struct {
+		chanTmp string
+		comm    ast.Stmt
+	}
+	var infos []info
+	for _, c := range s.Body.List {
+		cc := c.(*ast.CommClause)
+		if cc.Comm == nil {
+			hasDefault = true
+			infos = append(infos, info{})
+			continue
+		}
+		var chExpr ast.Expr
+		switch cm := cc.Comm.(type) {
+		case *ast.SendStmt:
+			ct := rw.newTmp()
+			pre = append(pre, &ast.AssignStmt{Lhs: []ast.Expr{ast.NewIdent(ct)}, Tok: token.DEFINE, Rhs: []ast.Expr{cm.Chan}})
+			var val ast.Expr = cm.Value
+			if !simpleExpr(cm.Value) {
+				vt := rw.newTmp()
+				pre = append(pre, &ast.AssignStmt{Lhs: []ast.Expr{ast.NewIdent(vt)}, Tok: token.DEFINE, Rhs: []ast.Expr{cm.Value}})
+				val = ast.NewIdent(vt)
+			}
+			caseArgs = append(caseArgs, &ast.CallExpr{Fun: sel("vrt", "SendCase"), Args: []ast.Expr{ast.NewIdent(ct), val}})
+			infos = append(infos, info{chanTmp: ct, comm: cm})
+			continue
+		case *ast.ExprStmt:
+			if u, ok := cm.X.(*ast.UnaryExpr); ok && u.Op == token.ARROW {
+				chExpr = u.X
+			}
+		case *ast.AssignStmt:
+			if len(cm.Rhs) == 1 {
+				if u, ok := cm.Rhs[0].(*ast.UnaryExpr); ok && u.Op == token.ARROW {
+					chExpr = u.X
+				}
+			}
+		}
+		if chExpr == nil {
+			return nil
+		}
+		ct := rw.newTmp()
+		pre = append(pre, &ast.AssignStmt{Lhs: []ast.Expr{ast.NewIdent(ct)}, Tok: token.DEFINE, Rhs: []ast.Expr{chExpr}})
+		caseArgs = append(caseArgs, &ast.CallExpr{Fun: sel("vrt", "RecvCase"), Args: []ast.Expr{ast.NewIdent(ct)}})
+		infos = append(infos, info{chanTmp: ct, comm: cc.Comm})
+	}
+	hd := "false"
+	if hasDefault {
+		hd = "true"
+	}
+	sw := &ast.SwitchStmt{
+		Switch: s.Select,
+		Tag:    &ast.CallExpr{Fun: sel("vrt", "SelectG"), Args: append([]ast.Expr{ast.NewIdent(hd)}, caseArgs...)},
+		Body:   &ast.BlockStmt{Lbrace: s.Body.Lbrace, Rbrace: s.Body.Rbrace},
+	}
+	idx := 0
+	for ci, c := range s.Body.List {
+		cc := c.(*ast.CommClause)
+		cl := &ast.CaseClause{Case: cc.Case, Colon: cc.Colon}
+		body := cc.Body
+		if cc.Comm != nil {
+			cl.List = []ast.Expr{&ast.BasicLit{Kind: token.INT, Value: strconv.Itoa(idx)}}
+			idx++
+			if as, ok := infos[ci].comm.(*ast.AssignStmt); ok {
+				val := &ast.CallExpr{Fun: sel("vrt", "SelVal"), Args: []ast.Expr{ast.NewIdent(infos[ci].chanTmp)}}
+				rhs := []ast.Expr{val}
+				if len(as.Lhs) == 2 {
+					rhs = append(rhs, &ast.CallExpr{Fun: sel("vrt", "SelOk")})
+				}
+				body = append([]ast.Stmt{&ast.AssignStmt{Lhs: as.Lhs, Tok: as.Tok, Rhs: rhs}}, body...)
+			}
+		}
+		cl.Body = body
+		sw.Body.List = append(sw.Body.List, cl)
+	}
+	if !hasDefault {
+		sw.Body.List = append(sw.Body.List, &ast.CaseClause{Body: []ast.Stmt{&ast.ExprStmt{X: &ast.CallExpr{
+			Fun: ast.NewIdent("panic"), Args: []ast.Expr{&ast.BasicLit{Kind: token.STRING, Value: strconv.Quote("vrt: blocking select returned without a case")}}}}}})
+	}
+	rw.needVrt, rw.changed = true, true
+	rep.Rewrites["select (general)"]++
+	return &ast.BlockStmt{List: append(pre, sw)}
 }
 
 func (rw *rewriter) selectStmt(s *ast.SelectStmt) ast.Stmt {
